@@ -416,3 +416,45 @@ func CsKvrCoqI(l []KVR, t *CsIntern) string {
 	}
 	return List(xs)
 }
+
+// ---------- recording the TTL arguments a backend hands to the engine ----------
+
+// CsTTLRec wraps an engine and records the ttl argument of every batch write.
+type CsTTLRec struct {
+	storage.KvStorage
+	mu   sync.Mutex
+	Seen []CsTTLArg
+}
+
+type CsTTLArg struct {
+	Op  string
+	Key []byte
+	TTL int64
+}
+
+type csTTLBatch struct {
+	storage.BatchWrite
+	r *CsTTLRec
+}
+
+func (r *CsTTLRec) BeginBatchWrite() storage.BatchWrite {
+	return &csTTLBatch{BatchWrite: r.KvStorage.BeginBatchWrite(), r: r}
+}
+func (r *CsTTLRec) note(op string, k []byte, ttl int64) {
+	r.mu.Lock()
+	r.Seen = append(r.Seen, CsTTLArg{op, append([]byte{}, k...), ttl})
+	r.mu.Unlock()
+}
+func (r *CsTTLRec) Reset() { r.mu.Lock(); r.Seen = nil; r.mu.Unlock() }
+func (b *csTTLBatch) PutIfNotExist(k, v []byte, ttl int64) {
+	b.r.note("putifnotexist", k, ttl)
+	b.BatchWrite.PutIfNotExist(k, v, ttl)
+}
+func (b *csTTLBatch) CAS(k, n, o []byte, ttl int64) {
+	b.r.note("cas", k, ttl)
+	b.BatchWrite.CAS(k, n, o, ttl)
+}
+func (b *csTTLBatch) Put(k, v []byte, ttl int64) {
+	b.r.note("put", k, ttl)
+	b.BatchWrite.Put(k, v, ttl)
+}
